@@ -307,7 +307,8 @@ RESP_HEADERS = {
 }
 FRAMINGS = ["content-length", "chunked", "empty"]
 TIMINGS = ["with-headers", "later", "two-later-segments"]
-CONSUMERS = ["stream-to-eof-keep", "iter-chunked-keep", "read-keep", "read-then-release", "ctx-manager", "release-unread"]
+CONSUMERS = ["stream-to-eof-keep", "iter-chunked-keep", "read-keep", "read-then-release", "ctx-manager", "release-unread",
+             "dropped-unread"]
 
 
 class ConsumePeer(PeerTransport):
@@ -386,6 +387,14 @@ def run_consume(sc):
                         await resp.read()
                 elif c == "release-unread":
                     resp.release()
+                elif c == "dropped-unread":
+                    # the caller forgets the response: garbage collection must give the connection back
+                    import gc, warnings
+                    keep.clear()
+                    with warnings.catch_warnings():
+                        warnings.simplefilter("ignore")
+                        del resp
+                        gc.collect()
             try:
                 await asyncio.wait_for(exchange(), 30)
                 obs["first"] = "done"
@@ -570,4 +579,182 @@ def judge_spelling(sc, obs):
         out.append(("session/spelling/requests-not-finished", f"{obs.get('done')} of {len(sc['names'])} requests finished"))
     if obs.get("acquired_end"):
         out.append(("session/still-counted-at-end", f"_acquired={obs.get('acquired_end')} at the end"))
+    return out
+
+
+# =====================================================================================================
+# family 4: ClientSession._request paths other than the plain success — redirects, errors raised while the
+# connection is held, timeouts, raise_for_status — and several exchanges in a row on one session.  Whatever
+# happens to an exchange, its connection must not stay counted, and the session must stay usable.
+
+HOPS = ["ok", "redirect-301", "redirect-301-body-pending", "redirect-307-keep-body", "redirect-loop", "redirect-bad-location", "redirect-other-host",
+        "peer-drops-before-response", "peer-drops-mid-headers", "peer-drops-mid-body", "malformed-status-line",
+        "never-answers", "stalls-mid-body", "status-500", "bad-content-encoding"]
+MODES = ["read", "raise_for_status", "stream-keep", "release"]
+
+
+class HopPeer(PeerTransport):
+    def __init__(self, loop, proto, script):
+        super().__init__(loop, proto, "hop", [])
+        self.script = script          # shared, mutable: list of behaviours for successive requests
+
+    def _react(self):
+        if self.closing:
+            return
+        i = self.buf.find(b"\r\n\r\n")
+        if i < 0:
+            return
+        head = bytes(self.buf[:i])
+        del self.buf[:i + 4]
+        if b"Content-Length:" in head:
+            n = int(head.split(b"Content-Length:")[1].split(b"\r\n")[0])
+            del self.buf[:n]
+        path = head.split(b" ")[1]
+        beh = "ok" if path.startswith(b"/final") or not self.script else self.script.pop(0)
+        ok = b"HTTP/1.1 200 OK\r\nContent-Length: 5\r\n\r\nfinal"
+        if beh == "ok":
+            self._send(ok)
+        elif beh == "redirect-301":
+            self._send(b"HTTP/1.1 301 Moved\r\nLocation: /final\r\nContent-Length: 3\r\n\r\nbye")
+        elif beh == "redirect-301-body-pending":
+            # the body of the redirect response never completes: following the redirect must not wait for it
+            self._send(b"HTTP/1.1 301 Moved\r\nLocation: /final\r\nContent-Length: 50\r\n\r\npartial")
+        elif beh == "redirect-307-keep-body":
+            self._send(b"HTTP/1.1 307 Temporary\r\nLocation: /final\r\nContent-Length: 0\r\n\r\n")
+        elif beh == "redirect-loop":
+            self.script.insert(0, "redirect-loop")
+            self._send(b"HTTP/1.1 302 Found\r\nLocation: /again\r\nContent-Length: 0\r\n\r\n")
+        elif beh == "redirect-bad-location":
+            self._send(b"HTTP/1.1 302 Found\r\nLocation: http://[::1/x\r\nContent-Length: 0\r\n\r\n")
+        elif beh == "redirect-other-host":
+            self._send(b"HTTP/1.1 302 Found\r\nLocation: http://h1/final\r\nContent-Length: 4\r\n\r\nbody")
+        elif beh == "peer-drops-before-response":
+            self._peer_close()
+        elif beh == "peer-drops-mid-headers":
+            self._send(b"HTTP/1.1 200 OK\r\nContent-Le")
+            self.loop.call_soon(self._peer_close)
+        elif beh == "peer-drops-mid-body":
+            self._send(b"HTTP/1.1 200 OK\r\nContent-Length: 50\r\n\r\npartial")
+            self.loop.call_later(0.01, self._peer_close)
+        elif beh == "malformed-status-line":
+            self._send(b"HTP/1.1 200 OK\r\n\r\n")
+        elif beh == "never-answers":
+            pass
+        elif beh == "stalls-mid-body":
+            self._send(b"HTTP/1.1 200 OK\r\nContent-Length: 50\r\n\r\npartial")
+        elif beh == "status-500":
+            self._send(b"HTTP/1.1 500 Oops\r\nContent-Length: 4\r\n\r\noops")
+        elif beh == "bad-content-encoding":
+            self._send(b"HTTP/1.1 200 OK\r\nContent-Encoding: gzip\r\nContent-Length: 9\r\n\r\nnot-gzip!")
+
+
+def run_hops(sc):
+    import aiohttp
+    from aiohttp.connector import BaseConnector
+    obs = {"results": []}
+
+    async def main():
+        script = []
+
+        class Connector(BaseConnector):
+            async def _create_connection(self, req, traces, timeout):
+                proto = self._factory()
+                tr = HopPeer(self._loop, proto, script)
+                self.transports.append(tr)
+                proto.connection_made(tr)
+                return proto
+
+        conn = Connector(limit=sc["limit"], limit_per_host=sc["lph"])
+        conn.transports = []
+        session = aiohttp.ClientSession(connector=conn, timeout=aiohttp.ClientTimeout(total=5, sock_read=2))
+        keep = []
+        try:
+            for beh in sc["hops"]:
+                script[:] = [beh]
+                try:
+                    kw = {"data": b"payload"} if beh == "redirect-307-keep-body" else {}
+                    resp = await session.request("POST" if kw else "GET", "http://h0/start", max_redirects=3,
+                                                 raise_for_status=(sc["mode"] == "raise_for_status"), **kw)
+                    keep.append(resp)
+                    if sc["mode"] in ("read", "raise_for_status"):
+                        await resp.read()
+                    elif sc["mode"] == "stream-keep":
+                        while await resp.content.read(3):
+                            pass
+                    else:
+                        resp.release()
+                    obs["results"].append("status:%d" % resp.status)
+                except (aiohttp.ClientError, asyncio.TimeoutError, ValueError) as e:
+                    obs["results"].append("error:" + type(e).__name__)
+                await asyncio.sleep(1.0)
+                obs.setdefault("acquired_after", []).append(len(conn._acquired) + sum(len(v) for v in conn._acquired_per_host.values()))
+            script[:] = []
+            try:
+                r2 = await asyncio.wait_for(session.get("http://h0/final"), 20)
+                obs["second"] = "status:%d" % r2.status
+                await r2.read()
+            except asyncio.TimeoutError:
+                obs["second"] = "timeout"
+            except aiohttp.ClientError as e:
+                obs["second"] = "error:" + type(e).__name__
+            await asyncio.sleep(0.2)
+            obs["acquired_end"] = len(conn._acquired)
+            obs["open_transports"] = sum(not t.closing for t in conn.transports)
+            obs["idle"] = sum(len(v) for v in conn._conns.values())
+        finally:
+            await session.close()
+        obs["open_after_close"] = sum(not t.closing for t in conn.transports)
+        return obs
+
+    res, excs, quiescent = vrun(main)
+    if res is None:
+        obs["quiescent"] = True
+    return obs
+
+
+def hop_scenarios():
+    for limit, lph in ((1, 0), (0, 1)):
+        for mode in MODES:
+            for h in HOPS:
+                yield {"family": "hops", "limit": limit, "lph": lph, "mode": mode, "hops": [h]}
+            # histories: the same session after an error / a redirect / a timeout
+            for a, b in (("peer-drops-mid-body", "redirect-301"), ("redirect-loop", "ok"), ("never-answers", "status-500"),
+                         ("redirect-other-host", "peer-drops-before-response"), ("bad-content-encoding", "stalls-mid-body")):
+                yield {"family": "hops", "limit": limit, "lph": lph, "mode": mode, "hops": [a, b, a]}
+
+
+def judge_hops(sc, obs):
+    out = []
+    if obs.get("quiescent"):
+        return [("session/blocked-forever", f"{sc}: never completes: {obs}")]
+    # an exchange whose peer behaves must succeed — in particular it must not starve waiting for the slot of its own
+    # previous hop
+    expect = {"ok": "status:200", "redirect-301": "status:200", "redirect-301-body-pending": "status:200", "redirect-307-keep-body": "status:200",
+              "redirect-other-host": "status:200"}
+    for h, r in zip(sc["hops"], obs.get("results", [])):
+        if h in expect and r != expect[h]:
+            out.append((f"session/exchange-failed/{h}", f"exchange {h} ended with {r}, expected {expect[h]} (mode {sc['mode']})"))
+            break
+    for i, n in enumerate(obs.get("acquired_after", [])):
+        if n and sc["mode"] == "stream-keep" and obs["results"][i].startswith("error:"):
+            # one root cause, one signature (the follow-on symptoms of the same scenario are not reported separately):
+            # an error raised by resp.content.read() does not release / close the response's connection
+            return [("session/stream-read-error-keeps-slot",
+                     f"resp.content.read() raised {obs['results'][i][6:]} ({sc['hops'][i]}); the caller keeps the response "
+                     f"object without release(): its connection stays counted ({n} entries 1 s later), follow-up: {obs.get('second')}")]
+        if n:
+            out.append((f"session/still-counted-after-exchange/{sc['hops'][i]}/{sc['mode']}",
+                        f"1 s after exchange #{i} ({sc['hops'][i]} -> {obs['results'][i]}): {n} entries still counted"))
+            break
+    if obs.get("second") == "timeout":
+        out.append((f"session/next-request-starved-after-exchange/{sc['hops'][-1]}", "follow-up GET got no connection in 20 s"))
+    elif not str(obs.get("second", "")).startswith("status:200"):
+        out.append((f"session/next-request-failed-after-exchange/{sc['hops'][-1]}", f"follow-up GET: {obs.get('second')}"))
+    if obs.get("acquired_end"):
+        out.append(("session/still-counted-at-end", f"_acquired={obs.get('acquired_end')} at the end"))
+    if obs.get("open_transports", 0) > obs.get("idle", 0):
+        out.append((f"session/open-connection-untracked/{sc['hops'][-1]}",
+                    f"{obs['open_transports']} transports open, {obs['idle']} idle in the pool, nothing in use"))
+    if obs.get("open_after_close"):
+        out.append(("session/transport-open-after-session-close", f"{obs['open_after_close']} transports open after session.close()"))
     return out
